@@ -155,10 +155,13 @@ func (r *ColumnAlignmentRule) checkColumnAlignment(indents []int, lines []int, _
 		indentCounts[indent]++
 	}
 
+	// Walk the columns in source order rather than the map, so that a tie
+	// between two indentation levels is always resolved the same way (the
+	// level seen first wins) and the result does not depend on map order.
 	var expectedIndent int
 	maxCount := 0
-	for indent, count := range indentCounts {
-		if count > maxCount {
+	for _, indent := range indents[1:] {
+		if count := indentCounts[indent]; count > maxCount {
 			maxCount = count
 			expectedIndent = indent
 		}
